@@ -229,6 +229,69 @@ func configs(quick bool) []cfg {
 		add(cfg{Kind: "tee-verb-writer", Name: fmt.Sprintf("tee-verb-writer:tee-then-put-q:p=%d", p), Argv: []string{"--ocsv", "tee", "@T", "then", "put", "-q", "true", "/vfs/in.dkvp"}, Files: f, Must: true})
 		add(cfg{Kind: "split-writer", Name: fmt.Sprintf("split-writer:split-n-then-nothing:p=%d", p), Argv: []string{"--ocsv", "split", "-n", "10", "--prefix", "@D/sp", "/vfs/in.dkvp"}, Files: f, Must: true})
 	}
+	// F5b split with SEVERAL output files: the writer error of any of them must surface, in particular one that only
+	// shows when a non-last file is finished (size mode closes file k when it opens file k+1)
+	for _, p := range []int{2, 3, 4} {
+		f := vf.VFS{"/vfs/in.dkvp": dkvpRecs(p)}
+		// (-g and -m are left to C20 and to the real-binary layer below: with two handlers open at end of stream they are
+		// closed in Go map-iteration order, a source of nondeterminism the scheduler does not own - replays diverge)
+		for _, mode := range [][]string{{"-n", "2"}, {"-n", "3"}} {
+			add(cfg{Kind: "split-writer-multi", Name: fmt.Sprintf("split-writer-multi:split %s:p=%d", strings.Join(mode, " "), p),
+				Argv: append(append([]string{"--ocsv", "split"}, mode...), "--prefix", "@D/sp", "/vfs/in.dkvp"), Files: f, Must: mode[0] != "-g" && !(mode[0] == "-m" && p >= 3) && !(mode[0] == "-n" && mode[1] == "3" && p == 4) && !(mode[0] == "-n" && mode[1] == "2" && p == 3)})
+		}
+	}
+	// F5c the LEFT file of a join is an input like any other: malformed row at p, read error after k bytes, missing file -
+	// unsorted and sorted (-s) joins, with and without --ul, the right input ending before or after the faulty left row
+	leftCSV := func(bad int) string {
+		var b strings.Builder
+		b.WriteString("i,l\n")
+		for i := 1; i <= N; i++ {
+			if i == bad {
+				fmt.Fprintf(&b, "%d\n", i)
+			} else {
+				fmt.Fprintf(&b, "%d,x\n", i)
+			}
+		}
+		return b.String()
+	}
+	joinBs := []int{1, 2, 500}
+	if quick {
+		joinBs = []int{1, 500}
+	}
+	jms := [][]string{{}, {"-s"}, {"-s", "--ul"}, {"--np", "--ul"}}
+	rights := []struct{ name, text string }{{"right=1..2", "i=1,g=a\ni=2,g=a\n"}, {"right=1..4", dkvpRecs(0)}, {"right=empty", ""}}
+	if quick {
+		jms = jms[:2]
+		rights = []struct{ name, text string }{rights[0], rights[2]}
+	}
+	for _, jm := range jms {
+		for _, right := range rights {
+			jn := strings.TrimSpace("join " + strings.Join(jm, " "))
+			base := append(append([]string{"join"}, jm...), "-i", "csv", "-j", "i", "-f", "/vfs/left.csv", "/vfs/in.dkvp")
+			for _, p := range []int{1, 3, 4} {
+				if quick && p == 3 {
+					continue
+				}
+				add(cfg{Kind: "join-left-malformed", Name: fmt.Sprintf("join-left-malformed:%s:%s:p=%d", jn, right.name, p), Argv: base,
+					Files: vf.VFS{"/vfs/in.dkvp": right.text, "/vfs/left.csv": leftCSV(p)}, Must: true, Bs: joinBs})
+			}
+			lt := leftCSV(0)
+			for _, k := range []int{0, len(lt) / 2, len(lt) - 1} {
+				if quick && k != len(lt)/2 {
+					continue
+				}
+				add(cfg{Kind: "join-left-read-error", Name: fmt.Sprintf("join-left-read-error:%s:%s:k=%d", jn, right.name, k), Argv: base,
+					Files: vf.VFS{"/vfs/in.dkvp": right.text, "/vfs/left.csv": lt}, ReadAt: map[string]int{"/vfs/left.csv": k}, Must: true, Bs: joinBs})
+			}
+			miss := append([]string{}, base...)
+			for i := range miss {
+				if miss[i] == "/vfs/left.csv" {
+					miss[i] = "/nonexistent-dir/left.csv"
+				}
+			}
+			add(cfg{Kind: "join-left-missing", Name: fmt.Sprintf("join-left-missing:%s:%s", jn, right.name), Argv: miss, Files: vf.VFS{"/vfs/in.dkvp": right.text}, Must: true, Bs: []int{1, 500}})
+		}
+	}
 	// several redirected statements in one put: the error of ANY of them must surface, in particular one that only
 	// shows when its target is closed at end of stream (writer error on the LAST record; failing statement first/last)
 	for _, p := range []int{2, N} {
@@ -572,6 +635,24 @@ func binCases() []binCase {
 		{"split-small-dev-full-like", `$MLR tee /dev/full then put '$z=1' $D/ok.dkvp`, "fail"},
 		{"split-unwritable-dir", `$MLR split -n 2 --prefix /nonexistent-dir/x $D/ok.dkvp`, "fail"},
 		{"tee-unwritable", `$MLR tee /nonexistent-dir/x $D/ok.dkvp`, "fail"},
+		// split with several output files: a failure of ANY of them, whichever position it has
+		{"split-n-first-file-dev-full", `ln -s /dev/full $D/s_1.dkvp; $MLR split -n 100 --prefix $D/s $D/big.dkvp`, "fail"},
+		{"split-n-middle-file-dev-full", `ln -s /dev/full $D/s_3.dkvp; $MLR split -n 100 --prefix $D/s $D/big.dkvp`, "fail"},
+		{"split-n-last-file-dev-full", `ln -s /dev/full $D/s_6.dkvp; $MLR split -n 100 --prefix $D/s $D/big.dkvp`, "fail"},
+		{"split-m-first-file-dev-full", `ln -s /dev/full $D/s_1.dkvp; $MLR split -m 3 --prefix $D/s $D/big.dkvp`, "fail"},
+		{"split-m-last-file-dev-full", `ln -s /dev/full $D/s_3.dkvp; $MLR split -m 3 --prefix $D/s $D/big.dkvp`, "fail"},
+		{"split-g-one-file-dev-full", `ln -s /dev/full $D/s_2.dkvp; $MLR put '$k = NR % 3' then split -g k --prefix $D/s $D/big.dkvp`, "fail"},
+		{"split-n-csv-schema-change-first-file", `printf 'a=1\nb=2\na=3\na=4\na=5\na=6\n' | $MLR --ocsv split -n 2 --prefix $D/s`, "fail"},
+		{"split-n-csv-schema-change-middle-file", `printf 'a=1\na=2\na=3\nb=4\na=5\na=6\n' | $MLR --ocsv split -n 2 --prefix $D/s`, "fail"},
+		{"split-n-csv-schema-change-last-file", `printf 'a=1\na=2\na=3\na=4\na=5\nb=6\n' | $MLR --ocsv split -n 2 --prefix $D/s`, "fail"},
+		{"split-m-csv-schema-change", `printf 'a=1\na=2\nb=3\na=4\n' | $MLR --ocsv split -m 2 --prefix $D/s`, "fail"},
+		{"split-g-csv-schema-change", `printf 'g=x,a=1\ng=y,a=2\ng=x,b=3\ng=y,a=4\n' | $MLR --ocsv split -g g --prefix $D/s`, "fail"},
+		// the left file of a join
+		{"join-left-missing-unsorted", `$MLR join -j i -f $D/nosuch $D/ok.dkvp`, "fail"},
+		{"join-left-missing-sorted-empty-right", `$MLR join -s -j i -f $D/nosuch /dev/null`, "fail"},
+		{"join-left-directory", `$MLR join -j i -f $D $D/ok.dkvp`, "fail"},
+		{"join-left-ragged-csv-late-row-sorted", `printf 'i,l\n1,a\n2,b\n3,c\n4\n5,e\n' > $D/left.csv; printf 'i=1\ni=2\n' | $MLR join -s -i csv -j i -f $D/left.csv`, "fail"},
+		{"join-left-ragged-csv-late-row-unsorted", `printf 'i,l\n1,a\n2,b\n3,c\n4\n5,e\n' > $D/left.csv; printf 'i=1\ni=2\n' | $MLR join -i csv -j i -f $D/left.csv`, "fail"},
 		{"pipe-redirect-failing-cmd", `$MLR put -q 'print | "exit 3", $i' $D/ok.dkvp`, "any"},
 		{"csv-ragged", `printf 'a,b\n1,2\n3\n' | $MLR --icsv --ojson cat`, "fail"},
 		{"csv-ragged-head", `printf 'a,b\n1\n3,4\n' | $MLR --icsv --ojson cat`, "fail"},
